@@ -9,7 +9,7 @@ seeds=${@:-$(ls seeded | grep -v RESULTS)}
 git -C /repo diff --quiet || { echo "/repo has local modifications"; exit 2; }
 for s in $seeds; do
   [ -f seeded/$s/patch.diff ] || continue
-  git -C /repo apply seeded/$s/patch.diff || { echo "$s: patch does not apply"; continue; }
+  git -C /repo apply $PWD/seeded/$s/patch.diff || { echo "$s: patch does not apply"; continue; }
   for c in ${CHECKS[$s]}; do
     [ -d units/$c ] || { echo "$s: no unit $c"; continue; }
     out=$(./bin/check $c 2>/dev/null | grep -E "^(VIOLATION|OK|UNDECIDED|KNOWN)" | head -3 | tr '\n' ' ')
